@@ -750,7 +750,8 @@ def run(ctx):
         "channels_merge over the upstreams' answers); that two different (topic, channel) pairs never share a key "
         "`topic:channel` (names without ':') is not proved and not needed for the statement as given",
         "/info without broadcast_address is generated together with a missing http_port only (address ':0'); hostnames of "
-        "configured nsqds are 127.0.0.1 in the harness (Nsqd.host)",
+        "configured nsqds are 127.0.0.1 in the model (Nsqd.host); the stubs listen on one loopback IP private to the harness "
+        "process, which the harness renders as 127.0.0.1",
         "sort.Sort returns a sorted permutation when Less is a strict weak order (library contract; order_by_host proves the "
         "by-hostname comparators are, order_clients_by_topology that ClientStatsByNodeTopology.Less is not)",
         "the per-node channel lists nested inside /api/topics/:t `nodes[]` are not compared (they alias the merged channel objects)",
